@@ -45,6 +45,7 @@ let result_s = function
 let parse_op (line : string) : op =
   match List.filter (fun s -> s <> "") (String.split_on_char ' ' line) with
   | ["newmsg"; n] -> ONewMsg (cz n)
+  | ["newmsgbus"; n] -> ONewMsg (cz n)   (* the same message, sent by a node interface of a CAN 2.0A bus *)
   | ["newstd"; n] -> ONewStd (cz n)
   | ["newenum"] -> ONewEnum
   | ["newenumsig"; e] -> ONewEnumSig (cn e)
@@ -73,6 +74,8 @@ let parse_op (line : string) : op =
   | ["muxclearall"; u] -> OMuxClearAll (cn u)
   | ["muxshl"; u; x; a] -> OMuxShiftL (cn u, cn x, cz a)
   | ["muxshr"; u; x; a] -> OMuxShiftR (cn u, cn x, cz a)
+  | ["resizebus"; m; n; lim] -> OResizeBus (cn m, cz n, cz lim)
+  | ["rename"; x] -> ORename (cn x)
   | _ -> failwith ("bad op: " ^ line)
 
 (* rebuild the function-valued fields from arrays so that closure chains do not grow with the
@@ -122,7 +125,10 @@ let snapshot (s : state) : string =
     if is_mux s uh then begin
       sep ();
       let c = mux_count s uh in
-      Buffer.add_string b (Printf.sprintf "U%d:%s:%s:%s:{" u (zs c) (zs (mux_gsize s uh)) (zs (selw c)));
+      (* the names that are taken from the multiplexer's point of view: its own table and, when it
+         is attached, the table of the owning message (MultiplexerSignal.verifySignalName) *)
+      let taken = s.unames uh @ (match s.pmsg uh with Some m -> s.gnames m | None -> []) in
+      Buffer.add_string b (Printf.sprintf "U%d:%s:%s:%s:T[%s]:{" u (zs c) (zs (mux_gsize s uh)) (zs (selw c)) (sorted_handles taken));
       (* run-length merged groups *)
       let groups = Array.of_list (List.map (fun l -> ints (List.map int_of_nat l)) (s.ugroups uh)) in
       let n = Array.length groups in
@@ -175,7 +181,7 @@ let wfb_on_impl (snap : string) : string list =
         | _ -> ()
       end else if String.length p > 0 && p.[0] = 'U' then begin
         match String.split_on_char ':' p with
-        | u :: _count :: gsize :: _selw :: rest ->
+        | u :: _count :: gsize :: _selw :: _taken :: rest ->
           let runs = String.concat ":" rest in
           let runs = String.sub runs 1 (String.length runs - 2) in
           if runs <> "" then
